@@ -51,11 +51,12 @@ func streamQuery(ctx context.Context, src string, readers func(*zed.Context) []z
 		return r.vals, r.err
 	case <-time.After(hangLimit(ctx)):
 		cancel()
-		if !hangConfirming(ctx) {
+		if !hangConfirming(ctx) && !hangAlreadyConfirmed(src, optimize) {
 			// Not believed yet: a loaded machine can be this slow.  Run it once more on
 			// its own with six times the limit; only a second timeout is a hang.
 			return streamQuery(context.WithValue(ctx, hangKey{}, true), src, readers, optimize, sortKey)
 		}
+		hangRemember(src, optimize)
 		return nil, errHang
 	}
 }
@@ -65,6 +66,29 @@ var errHang = fmt.Errorf("HANG: query did not finish within 20s, nor within 120s
 type hangKey struct{}
 
 func hangConfirming(ctx context.Context) bool { return ctx.Value(hangKey{}) != nil }
+
+// Once a hang has been confirmed for a plan feature (a fork feeding a join, a fork feeding a merge, anything
+// else; optimizer on or off), later programs with the same feature are believed after the first limit: the
+// recorded fork deadlocks would otherwise cost 140 s each time they occur.
+var hangConfirmed sync.Map
+
+func hangShape(src string, optimize bool) string {
+	feature := "other"
+	switch {
+	case strings.Contains(src, "join"):
+		feature = "fork-feeding-join"
+	case strings.Contains(src, "merge"):
+		feature = "fork-feeding-merge"
+	}
+	return fmt.Sprint(feature, optimize)
+}
+
+func hangAlreadyConfirmed(src string, optimize bool) bool {
+	_, ok := hangConfirmed.Load(hangShape(src, optimize))
+	return ok
+}
+
+func hangRemember(src string, optimize bool) { hangConfirmed.Store(hangShape(src, optimize), true) }
 
 // hangLimit is the real-time limit after which a query is suspected to hang
 // (20 s), or believed to (another 120 s on the confirming run).
